@@ -141,6 +141,46 @@ def firstReject (t : SSt) : List Obs → Nat → Option Nat
     | some t' => firstReject t' os (k + 1)
     | none => some k
 
+/-! ### Strengthened "not late" clause: a returned force-flush drop that went through the mutex
+
+`accept` demands the append only at instants where nothing is in flight.  More is true of the code (and, proved, of
+the model: `c06_force_return_appended`): once a force-flush guard's drop has *returned* after passing through the
+guard-cell mutex, the keep-alive closure has been run completely (the drop ran it itself, or it waited on the mutex
+until the thread that took it had run it — inside the lock — and, if that brought the value count to 0, had appended).
+Hence from then on: as soon as every owning reference's drop has returned, the entry has been appended — whatever
+flush guards are still alive and whatever else is in flight.  A client sees that a force-flush drop went through the
+mutex when, at its return, some flush guard's drop had not begun or some owning reference's drop had not begun (the
+guard cell was alive during the whole drop, so `upgrade` succeeded).  This is an extra predicate beside `accept`
+(whose refinement proof is untouched); the driver and the harness require both. -/
+
+structure FSt where
+  /-- owning-reference drops begun and not returned -/
+  refsBusy : Nat := 0
+  /-- some force-flush drop has returned after going through the mutex -/
+  forced : Bool := false
+  deriving DecidableEq, Repr
+
+/-- `t` is the `accept` state *before* the observation -/
+def forceFeed (t : SSt) (x : FSt) : Obs → FSt
+  | .bR => { x with refsBusy := x.refsBusy + 1 }
+  | .eR => { x with refsBusy := x.refsBusy - 1 }
+  | .eD => { x with forced := x.forced || decide (t.fgOut > 0) || decide (t.refsOut > 0) }
+  | _ => x
+
+/-- the strengthened clause is violated in (`t`, `x`): a force-flush drop has returned through the mutex, every
+owning reference's drop has returned, and the sink has nothing -/
+def forceLate (t : SSt) (x : FSt) : Bool := x.forced && t.refsOut = 0 && x.refsBusy = 0 && t.apps = 0
+
+def firstRejectStrong (t : SSt) (x : FSt) : List Obs → Nat → Option Nat
+  | [], _ => none
+  | o :: os, k => match feedChecked t o with
+    | some t' =>
+      let x' := forceFeed t x o
+      if forceLate t' x' then some k else firstRejectStrong t' x' os (k + 1)
+    | none => some k
+
+def acceptStrong (nslots : Nat) (os : List Obs) : Bool := (firstRejectStrong (start nslots) {} os 0).isNone
+
 def parseMode (s : String) : Option Mode :=
   if s == "w" then some .wait else if s == "d" then some .discard else none
 
